@@ -152,6 +152,33 @@ def rule_r3(chk, facts, P):
                % (c, sz, g['type']['t'], mx['type'].get('size', 0)))
 
 
+def unlinked_globals(f, ex):
+    """names of the globals whose file an element removes: unlink(G) itself, a helper of the unit that unlinks G, or a
+    helper that unlinks its parameter and is handed G"""
+    out = set()
+    for m in walk_own(ex):
+        if m[0] != 'call':
+            continue
+        cn = callee_name(m)
+        if cn == 'unlink' and m[2] and nocast(m[2][0])[0] in GLOBKINDS:
+            out.add(nocast(m[2][0])[1])
+            continue
+        g = f.unit.funcs.get(cn or '')
+        if g is None or g is f or g.entry is None:
+            continue
+        for b2, i2, l2, c2 in g.calls('unlink'):
+            a = nocast(c2[2][0]) if c2[2] else None
+            if a is None:
+                continue
+            if a[0] in GLOBKINDS:
+                out.add(a[1])
+            elif a[0] == 'p':
+                for k, prm in enumerate(g.params):
+                    if prm['name'] == a[1] and k < len(m[2]) and nocast(m[2][k])[0] in GLOBKINDS:
+                        out.add(nocast(m[2][k])[1])
+    return out
+
+
 def rule_r4(chk, facts, P):
     chk.rule('C02-R4', 'AssembleFile(): removal of the code file and GlobErrFlag = True are both control-dependent on '
              'ErrorCount != 0 after the pass loop, every such path removes the code file when one was written, '
@@ -163,7 +190,7 @@ def rule_r4(chk, facts, P):
                (a[0] == 'nz' and a[1] == ('g', 'ErrorCount'))
 
     def is_unlink_out(ex):
-        return any(m[0] == 'call' and callee_name(m) == 'unlink' and nocast(m[2][0]) == ('g', 'OutName') for m in walk_own(ex))
+        return 'OutName' in unlinked_globals(f, ex)
     n_un = 0
     for b, i, ln, ex in f.elems():
         if is_unlink_out(ex):
@@ -308,6 +335,9 @@ def rule_r5(chk, facts):
             unlinked.append(show(n[2][0]))
         else:
             closed.append((callee_name(n), show(n[2][0]) if n[2] else '', ln))
+    for b, i, ln, ex in es.elems():
+        for gname in unlinked_globals(es, ex):
+            unlinked.append(gname)
     ok = 'OutName' in unlinked
     chk.ob('C02-R5', 'as.c:EmergencyStop:removes-code-file', ok, es.loc(), 'unlinks %s' % unlinked if ok else
            'EmergencyStop() does not remove the code file')
